@@ -41,26 +41,32 @@ def replay_histories(ctx, res, letters):
     for doc in res.printed:
         if isinstance(doc, dict) and "inp" in doc and doc["inp"]["two"]:
             i = doc["inp"]
-            groups.setdefault((i["engine"], i["k"], i["mode"], str(i["seqs"])), {})[str(i["seqs2"])] = doc
+            # SymdelDB fixes max_edits at build time; LookupDB takes it per lookup: one object serves every radius
+            groups.setdefault((i["engine"], i["k"] if i["engine"] == "symdel" else 0, i["mode"], str(i["seqs"])), {})[str(i["seqs2"]) + "/" + str(i["k"])] = doc
     for (eng, k, mode, _), docs in groups.items():
-        docs = list(docs.values())
+        docs = sorted(docs.values(), key=lambda d: (str(d["inp"]["seqs2"]), d["inp"]["k"]))
+        if len(docs) > 24:
+            docs = docs[:12] + docs[-12:]
         ref = [nc.dec(x, letters) for x in docs[0]["inp"]["seqs"]]
         db = nn.SymdelDB(ref, k) if eng == "symdel" else nn.LookupDB(ref)
+        ks_seen = set()
         order = docs + docs[::-1]
         hist = []
         for doc in order:
             qs = [nc.dec(x, letters) for x in doc["inp"]["seqs2"]]
             before = nc._snapshot(db)
-            hist.append(qs)
+            hist.append([qs, doc["inp"]["k"]])
             try:
-                ret = db.lookup(qs) if eng == "symdel" else db.lookup(qs, max_edits=k)
+                kq = doc["inp"]["k"]
+                ks_seen.add(kq)
+                ret = db.lookup(qs) if eng == "symdel" else db.lookup(qs, max_edits=kq)
                 got = sorted(map(tuple, nc.norm_triplets(ret, mode)))
             except Exception as e:   # noqa: BLE001
                 ctx.violation(classify(doc["inp"], "raised"), f"{eng} db lookup raised {type(e).__name__}: {e} history={hist}",
                               dict(kind="replay", doc=doc, letters=letters, api="LookupDB" if eng == "hash" else None))
                 continue
             want = sorted(map(tuple, doc["trip"]))
-            ctx.case(dict(kind="db_history", engine=eng, ref=ref, k=k, history=list(hist)), nontrivial=len(hist) > 1 and len(want) > 0)
+            ctx.case(dict(kind="db_history", engine=eng, ref=ref, k=kq, history=list(hist)), nontrivial=len(hist) > 1 and len(want) > 0)
             if nc._snapshot(db) != before:
                 ctx.violation(classify(doc["inp"], "db_mutated"), f"{eng} database changed by lookup({qs}); ref={ref}",
                               dict(kind="db_history", engine=eng, ref=ref, k=k, history=list(hist), letters=letters))
@@ -117,6 +123,8 @@ def run(ctx):
         inp = nc.make_inp(eng, "lev", k, ref, seqs2=qs[0])
         if r % 2 == 0:
             look = [nc.make_inp(eng, "lev", k, ref, seqs2=q)["seqs2"] for q in (qs[1], qs[0], qs[2])]
+            if eng == "hash":       # the radius of LookupDB is per lookup: vary it, and repeat a query list under another radius
+                look = [(look[0], 1), (look[1], 2 if k == 1 else 1), (look[1], k), (look[2], 1)]
             s = nc.build_db_session(sid, inp, look)
         else:
             s = nc.build_session(sid, inp, api=None if eng == "hash" else ("nearest_neighbor", "symdel")[sid % 2])
@@ -149,8 +157,8 @@ def replay(doc):
         import pyrepseq.nn as nn
         db = nn.SymdelDB(r["ref"], r["k"]) if r["engine"] == "symdel" else nn.LookupDB(r["ref"])
         got = None
-        for qs in r["history"]:
-            ret = db.lookup(qs) if r["engine"] == "symdel" else db.lookup(qs, max_edits=r["k"])
+        for qs, kq in r["history"]:
+            ret = db.lookup(qs) if r["engine"] == "symdel" else db.lookup(qs, max_edits=kq)
             got = sorted(map(tuple, nc.norm_triplets(ret, "lev")))
         want = sorted(map(tuple, r.get("want", [])))
         print("got", got, "want", want)
